@@ -192,7 +192,14 @@ impl FromStr for Id {
         let mut bytes = Vec::with_capacity(s.len() / 2);
 
         for i in 0..s.len() / 2 {
-            let byte_str = &s[i * 2..(i * 2) + 2];
+            // `get` instead of indexing: a multi-byte character may straddle the window,
+            // and `from_str_radix` alone would accept a leading `+`.
+            let byte_str = s
+                .get(i * 2..(i * 2) + 2)
+                .ok_or_else(|| DecodeIdError::InvalidHexCharacter(s.into()))?;
+            if !byte_str.bytes().all(|b| b.is_ascii_hexdigit()) {
+                return Err(DecodeIdError::InvalidHexCharacter(byte_str.into()));
+            }
             if let Ok(byte) = u8::from_str_radix(byte_str, 16) {
                 bytes.push(byte);
             } else {
